@@ -10,6 +10,22 @@ Oracle: the sentences of the property evaluated on the implementation's float ou
 """
 import math, struct
 from .common import *
+from translator import quant2coq
+
+GEN_V = os.path.join(COQ, 'Gen', 'QuantGen.v')
+
+
+def regenerate(ctx):
+    """translate the three quantizers of the tree under test into Gen/QuantGen.v (written only when it changed).
+    -> None, or the reason why the translator refused the source (the file then fails on purpose)"""
+    try:
+        text, rej = quant2coq.translate_repo(REPO), None
+    except (quant2coq.Reject, SyntaxError, OSError) as e:
+        rej = '%s: %s' % (type(e).__name__, e)
+        text = ('(* translator/quant2coq.py REFUSED the quantizers of the tree under test:\n   %s\n   no model of the current code exists; this file fails on purpose. *)\n'
+                'Definition translator_rejected : True := 0.\n' % rej.replace('*)', '* )').replace('(*', '( *'))
+    write_if_changed(GEN_V, text)
+    return rej
 
 BOUND_REL = Fraction(1, 2 ** 18)
 
@@ -90,7 +106,12 @@ def configure(torch, rng_tag, make, p, deq, all_precs, warm):
 
 def run(ctx):
     torch, PACTAct, MinMaxWeight, QuantizerBias = _env()
+    gen_rejected = regenerate(ctx)
+    if gen_rejected:
+        ctx.notes.append('generated model: the translator refused the source: ' + gen_rejected)
     built = ctx.build()
+    ctx.extra['generated_model'] = {'file': 'coq/Gen/QuantGen.v', 'translator': 'translator/quant2coq.py', 'source': 'plinio/methods/mps/quant/quantizers/{pact_act,minmax_weight,qtz_bias}.py',
+                                    'status': 'refused: ' + gen_rejected if gen_rejected else 'regenerated; equal to the hand model and every division defined (C13_generated_*)' if built else 'regenerated; obligations do not check'}
     ctx.rule = ('seeded float32 channels (kinds: mixed/const/zero/single/pos/smallspread/withzeros, magnitudes 2^-30..2^13) x bits {0,2..8} for weights; '
                 'clip in [0.05,1e3] x bits 2..8 x inputs in [-clip,2clip] plus {<=0, clip, >clip} for activations; bias with zero/tiny/normal scales; '
                 'plus exhaustive sweep of every level boundary (multiples and half-multiples of a power-of-two scale and their float32 neighbours) for bits {2,3,4,8}. '
@@ -281,6 +302,13 @@ def run(ctx):
             bflat = [(c, j) for c in B for j in range(len(c['bs']))]
             ex += ['run_bq %s %s' % (coq(Fraction(c['sb'][j])), coq([Fraction(c['bs'][j])])) for c, j in bflat]
             vals = ctx.coq_eval_sharded('cases', ['Plinio.Model.Quant'], '', ex, shard=250)
+            # the GENERATED model (the quantizers' source translated on this run) on the same cases: same values as the hand model
+            gex = [e.replace('run_wq ', 'run_wq_gen ', 1).replace('run_aq ', 'run_aq_gen ', 1).replace('run_bq ', 'run_bq_gen ', 1) for e in ex]
+            gvals = ctx.coq_eval_sharded('gcases', ['Plinio.Model.Quant', 'Plinio.Gen.QuantGen'], '', gex, shard=250)
+            ctx.corr += len(gvals)
+            gdiff = [k for k, (a, b) in enumerate(zip(vals, gvals)) if a != b]
+            if gdiff:
+                mism.append(('generated model differs from the hand-written model', {'expr': gex[gdiff[0]][:400], 'n': len(gdiff)}, str(gvals[gdiff[0]])[:200]))
             suspects = []      # (case, element index, impl code, model code, pre-expr, kind)
             for c, (codes, (sn, sd)) in zip(W, vals[:len(W)]):
                 ctx.corr += len(codes) + 1
@@ -326,8 +354,12 @@ def run(ctx):
     ctx.extra['model_impl_mismatches'] = len(mism)
 
     if not ctx.violations:   # a printed KNOWN-FINDING must not hide a broken proof / model / correspondence
-        if not built:
-            ctx.violation('proof-broken', {'theorems': [o[0] for o in ctx.obligations if not o[1]], 'log': getattr(ctx, 'broken_log', '')[-3000:]}, 'Props/C13.v no longer checks', no_input=True)
+        if not built and gen_rejected:
+            ctx.violation('translator-rejected', {'translator': 'translator/quant2coq.py', 'source': 'plinio/methods/mps/quant/quantizers', 'reason': gen_rejected, 'theorems': [o[0] for o in ctx.obligations if not o[1]]},
+                          'the source of the quantizers is outside the subset the translator accepts (%s): no generated model, the C13_generated_* theorems are not established' % gen_rejected[:300], no_input=True)
+        elif not built:
+            ctx.violation('proof-broken', {'theorems': [o[0] for o in ctx.obligations if not o[1]], 'log': getattr(ctx, 'broken_log', '')[-3000:]},
+                          'Props/C13.v no longer checks (the model generated from the current source of the quantizers may no longer equal the hand-written one, or divides by a possibly zero quantity: Proofs/QuantGen.v)', no_input=True)
         elif not model_ok:
             ctx.violation('model-eval-broken', {'notes': ctx.notes}, 'the model could not be evaluated', no_input=True)
         elif mism:
